@@ -206,10 +206,14 @@ func satisfiedExitErr(p *Prog, f *ssa.Function, l *Loop, errV *ssa.Extract) stri
 				}
 				succs := x.Succs
 				if i2, ok := x.Instrs[len(x.Instrs)-1].(*ssa.If); ok {
-					if isErr, nilIdx := errBranch(i2); isErr {
-						// only the nil side keeps the "satisfied and err possibly set" state interesting: on the
-						// non-nil side the function reports an error it tested itself — that IS the defect too
-						_ = nilIdx
+					// a second test of the count after the loop (`if n <= 0 { return nil }`): on this path the loop's own
+					// count test has just failed, which decides it
+					if known, val := impliedByExit(ifi, boolInt(b.Succs[0] == s) == 1, i2); known {
+						if val {
+							succs = x.Succs[:1]
+						} else {
+							succs = x.Succs[1:2]
+						}
 					}
 				}
 				for _, y := range succs {
@@ -222,6 +226,67 @@ func satisfiedExitErr(p *Prog, f *ssa.Function, l *Loop, errV *ssa.Extract) stri
 		}
 	}
 	return bad
+}
+
+// impliedByExit: the loop test `first` was left with outcome firstTrue; does that decide the comparison `second` of
+// the same two operands? Relations are sets over {<, =, >}.
+func impliedByExit(first *ssa.If, firstTrue bool, second *ssa.If) (known, val bool) {
+	rel := func(op token.Token) (uint8, bool) {
+		switch op {
+		case token.LSS:
+			return 1, true
+		case token.EQL:
+			return 2, true
+		case token.GTR:
+			return 4, true
+		case token.LEQ:
+			return 3, true
+		case token.GEQ:
+			return 6, true
+		case token.NEQ:
+			return 5, true
+		}
+		return 0, false
+	}
+	swap := func(m uint8) uint8 { return m&2 | (m&1)<<2 | (m&4)>>2 }
+	a, ok1 := first.Cond.(*ssa.BinOp)
+	b, ok2 := second.Cond.(*ssa.BinOp)
+	if !ok1 || !ok2 {
+		return false, false
+	}
+	fa, ok := rel(a.Op)
+	if !ok {
+		return false, false
+	}
+	if !firstTrue {
+		fa = 7 &^ fa
+	}
+	fb, ok := rel(b.Op)
+	if !ok {
+		return false, false
+	}
+	same := func(x, y ssa.Value) bool {
+		if x == y {
+			return true
+		}
+		cx, okx := constInt(x)
+		cy, oky := constInt(y)
+		return okx && oky && cx == cy
+	}
+	switch {
+	case same(a.X, b.X) && same(a.Y, b.Y):
+	case same(a.X, b.Y) && same(a.Y, b.X):
+		fb = swap(fb)
+	default:
+		return false, false
+	}
+	if fa&^fb == 0 {
+		return true, true
+	}
+	if fa&fb == 0 {
+		return true, false
+	}
+	return false, false
 }
 
 func boolInt(b bool) int {
